@@ -191,13 +191,14 @@ pub enum SweepMode {
     Both,
 }
 
-const FAULT_MENU: [FaultKind; 6] = [
+const FAULT_MENU: [FaultKind; 7] = [
     FaultKind::Error(ErrKind::ConnectionReset),
     FaultKind::Eof,
     FaultKind::Error(ErrKind::TimedOut),
     FaultKind::Error(ErrKind::BrokenPipe),
     FaultKind::Error(ErrKind::Interrupted),
     FaultKind::Error(ErrKind::Other),
+    FaultKind::Error(ErrKind::WriteZero),
 ];
 
 /// Scripted plain workloads that some sweep checks run after their generated ones.
@@ -331,7 +332,7 @@ impl Check for SweepCheck {
                     for i in 0..=c.n_io {
                         let mut kind = FAULT_MENU[k % FAULT_MENU.len()];
                         // C11 also covers a transport that accepts nothing (`Ok(0)`) while disconnect() writes
-                        if self.id == "C11" && k % 7 == 6 {
+                        if self.id == "C11" && k % 9 == 8 {
                             kind = FaultKind::WriteZero;
                         }
                         k += 1;
